@@ -652,6 +652,141 @@ fn psd_history(g: &mut Gen, n: usize, steps: &[(Option<(Mat, Mat)>,)], X: &Mat) 
     }
 }
 
+// ------------------------------------------------------------------ HISTORIES on a COMPOSITE cone
+// update_scaling(s_k, z_k, mu_k, strategy_k) with the strategy alternating PrimalDual / Dual while
+// (s, z) changes: after every call every symmetric block (and the composite Hs / mul_Hs) must be what a
+// fresh composite gives for that call alone, and must agree with the model evaluated from (s_k, z_k).
+#[derive(Clone)]
+enum CB { NN(usize), SOC(usize), PSD(usize), Exp, Pow(f64) }
+fn cb_spec(b: &CB) -> vh::SupportedConeT<f64> {
+    match b {
+        CB::NN(n) => vh::SupportedConeT::NonnegativeConeT(*n),
+        CB::SOC(n) => vh::SupportedConeT::SecondOrderConeT(*n),
+        CB::PSD(n) => vh::SupportedConeT::PSDTriangleConeT(*n),
+        CB::Exp => vh::SupportedConeT::ExponentialConeT(),
+        CB::Pow(a) => vh::SupportedConeT::PowerConeT(*a),
+    }
+}
+fn cb_dim(b: &CB) -> usize { match b { CB::NN(n) | CB::SOC(n) => *n, CB::PSD(n) => n * (n + 1) / 2, _ => 3 } }
+fn cb_hs(b: &CB) -> usize {
+    match b { CB::NN(n) => *n, CB::SOC(n) => if *n > 4 { *n } else { n * (n + 1) / 2 }, CB::PSD(n) => { let m = n * (n + 1) / 2; m * (m + 1) / 2 }, _ => 6 }
+}
+/// stored scaling state of every symmetric constituent, block by block
+fn comp_states(c: &vh::CompositeCone<f64>) -> Vec<Vec<f64>> {
+    c.iter().map(|cone| match cone {
+        vh::SupportedCone::NonnegativeCone(k) => cat(&[k.verif_w(), k.verif_lambda()]),
+        vh::SupportedCone::SecondOrderCone(k) => {
+            let mut v = cat(&[&k.w, &k.λ, &[k.η]]);
+            if let Some(sd) = &k.sparse_data { v.extend(cat(&[&sd.u, &sd.v, &[sd.d]])); }
+            v
+        }
+        vh::SupportedCone::PSDTriangleCone(k) => cat(&[k.verif_lambda(), &k.verif_R(), &k.verif_Rinv()]),
+        _ => vec![],
+    }).collect()
+}
+
+fn composite_history(g: &mut Gen, blks: &[CB], nsteps: usize, first_dual: bool, tag: &str) {
+    let specs: Vec<_> = blks.iter().map(cb_spec).collect();
+    let ntot: usize = blks.iter().map(cb_dim).sum();
+    let hstot: usize = blks.iter().map(cb_hs).sum();
+    let degree: usize = blks.iter().map(|b| match b { CB::NN(n) => *n, CB::SOC(_) => 1, CB::PSD(n) => *n, _ => 3 }).sum();
+    // the (s_k, z_k) of every step: fresh interior points for the symmetric blocks, the unit point
+    // (slightly rescaled) for exp / pow
+    let mut unit_z = vec![0.0; ntot];
+    let mut unit_s = vec![0.0; ntot];
+    { let c0 = vh::CompositeCone::<f64>::new(&specs); c0.unit_initialization(&mut unit_z, &mut unit_s); }
+    let mut steps: Vec<(Vec<f64>, Vec<f64>, f64, bool)> = vec![];
+    for k in 0..nsteps {
+        let (mut s, mut z) = (unit_s.clone(), unit_z.clone());
+        let mut off = 0;
+        for b in blks {
+            let n = cb_dim(b);
+            match b {
+                CB::NN(_) => for i in 0..n { let (a, c) = nn_pair(&mut g.rng); s[off + i] = a.min(1e4).max(1e-4); z[off + i] = c.min(1e4).max(1e-4); },
+                CB::SOC(m) => {
+                    s[off..off + n].copy_from_slice(&soc_interior(&mut g.rng, *m, 1.0, 1.0 + k as f64));
+                    z[off..off + n].copy_from_slice(&soc_interior(&mut g.rng, *m, 1.0, 2.0));
+                }
+                CB::PSD(m) => {
+                    s[off..off + n].copy_from_slice(&svec(&psd_matrix(&mut g.rng, *m, 0.3, 1.0)));
+                    z[off..off + n].copy_from_slice(&svec(&psd_matrix(&mut g.rng, *m, 0.3, 2.0)));
+                }
+                _ => { let f = 1.0 + 0.125 * (k as f64); for i in 0..n { s[off + i] *= f; z[off + i] *= f; } }
+            }
+            off += n;
+        }
+        let mu = s.iter().zip(&z).map(|(a, b)| a * b).sum::<f64>() / (degree as f64);
+        steps.push((s, z, mu, (k % 2 == 0) == first_dual));
+    }
+    let x: Vec<f64> = (0..ntot).map(|_| (g.rng.unit() - 0.5) * 4.0 + 0.25).collect();
+    let input = json!({"cone": "composite", "blocks": blks.iter().map(|b| match b { CB::NN(n) => format!("NN{}", n), CB::SOC(n) => format!("SOC{}", n), CB::PSD(n) => format!("PSD{}", n), CB::Exp => "Exp".to_string(), CB::Pow(a) => format!("Pow{}", a) }).collect::<Vec<_>>(),
+                       "steps": steps.iter().map(|t| json!({"s": t.0, "z": t.1, "mu": t.2, "dual": t.3})).collect::<Vec<_>>(), "x": x});
+    let r = guarded(|| {
+        let mut c = vh::CompositeCone::<f64>::new(&specs);
+        let mut parts: Vec<String> = vec![];
+        for (s, z, mu, dual) in steps.iter() {
+            let strat = if *dual { ScalingStrategy::Dual } else { ScalingStrategy::PrimalDual };
+            let mut f = vh::CompositeCone::<f64>::new(&specs);
+            if !(c.update_scaling(s, z, *mu, strat) && f.update_scaling(s, z, *mu, strat)) { return None; }
+            let obs = |k: &mut vh::CompositeCone<f64>| -> (Vec<f64>, Vec<f64>) {
+                let mut hs = garbage(hstot);
+                k.get_Hs(&mut hs);
+                let mut y = garbage(ntot);
+                let mut work = garbage(ntot);
+                k.mul_Hs(&mut y, &x, &mut work);
+                (hs, y)
+            };
+            let (hs_c, y_c) = obs(&mut c);
+            let (hs_f, y_f) = obs(&mut f);
+            let (st_c, st_f) = (comp_states(&c), comp_states(&f));
+            // block by block: symmetric blocks bitwise + model; composite Hs and mul_Hs of those blocks
+            let (mut off, mut hoff) = (0, 0);
+            for (bi, b) in blks.iter().enumerate() {
+                let (n, hn) = (cb_dim(b), cb_hs(b));
+                let sym = !matches!(b, CB::Exp | CB::Pow(_));
+                if sym {
+                    let a = cat(&[&st_c[bi], &hs_c[hoff..hoff + hn], &y_c[off..off + n]]);
+                    let bb = cat(&[&st_f[bi], &hs_f[hoff..hoff + hn], &y_f[off..off + n]]);
+                    if !a.iter().chain(bb.iter()).all(|v| v.is_finite()) { return None; }
+                    parts.push(format!("c_bitsame {} {}", cfllist(&a), cfllist(&bb)));
+                    let (sb, zb, hb) = (&s[off..off + n], &z[off..off + n], &hs_c[hoff..hoff + hn]);
+                    match c.iter().nth(bi).unwrap() {
+                        vh::SupportedCone::NonnegativeCone(k) => parts.push(format!("c_nn_state (0x1p-44)%float {} {} {} {} {}", cfllist(sb), cfllist(zb), cfllist(k.verif_w()), cfllist(k.verif_lambda()), cfllist(hb))),
+                        vh::SupportedCone::SecondOrderCone(k) => {
+                            let (u, v, d) = match &k.sparse_data { Some(sd) => (sd.u.clone(), sd.v.clone(), sd.d), None => (vec![], vec![], 0.0) };
+                            parts.push(format!("c_soc_state (0x1p-40)%float {} {} {} {} {} {} {} {} {}", cfllist(sb), cfllist(zb), cfllist(&k.w), cfllist(&k.λ), cfl(k.η), cfllist(&u), cfllist(&v), cfl(d), cfllist(hb)));
+                            parts.push(format!("p_soc_nt (-33) {} {} {} {} {}", cdylist(sb), cdylist(zb), cdylist(&k.w), cdylist(&k.λ), cdy(k.η)));
+                        }
+                        _ => {}
+                    }
+                }
+                off += n;
+                hoff += hn;
+            }
+        }
+        Some(parts)
+    });
+    match r {
+        Some(Some(parts)) => { g.sink.case("composite_history", input, format!("(maxl [{}])", parts.join("; ")), &["history", tag]); g.count("history/composite"); }
+        _ => g.sink.case("composite_history", input, "1%N".into(), &["history", tag, "panic-or-nonfinite-or-refused"]),
+    }
+}
+
+fn composite_histories(g: &mut Gen, thorough: bool) {
+    let psd = blas_shim::AVAILABLE;
+    let mut lists: Vec<Vec<CB>> = vec![
+        vec![CB::NN(3), CB::SOC(3), CB::SOC(6), CB::Exp],
+        vec![CB::SOC(5), CB::Pow(0.4), CB::NN(2)],
+        vec![CB::Exp, CB::SOC(4), CB::SOC(9)],
+        vec![CB::NN(2), CB::SOC(8)],
+    ];
+    if psd { lists.push(vec![CB::PSD(2), CB::SOC(5), CB::Exp, CB::NN(1)]); lists.push(vec![CB::Pow(0.7), CB::PSD(3), CB::SOC(3)]); }
+    for (i, l) in lists.iter().enumerate() {
+        composite_history(g, l, 3, i % 2 == 0, "alternating");
+        if thorough || i < 3 { composite_history(g, l, 4, i % 2 == 1, "alternating"); }
+    }
+}
+
 fn histories(g: &mut Gen, thorough: bool) {
     let dims: &[usize] = if thorough { &[2, 3, 4, 5, 6, 8, 9, 12] } else { &[3, 4, 5, 8, 12] };
     for &n in dims {
@@ -702,6 +837,7 @@ fn generate(g: &mut Gen, thorough: bool) {
     sequences(g, reps);
     probe_cases(g, thorough);
     histories(g, thorough);
+    composite_histories(g, thorough);
     for _ in 0..reps {
         for n in 1..=12usize {
             for mode in 0..3 {
@@ -718,8 +854,9 @@ fn generate(g: &mut Gen, thorough: bool) {
             }
         }
     }
-    for _ in 0..reps {
+    for rep in 0..reps {
         for n in 2..=12usize {
+            if !thorough && rep > 0 && n > 6 && n != 9 { continue; }
             for &dist in &[1.0, 1e-4, 1e-8] {
                 for &(ms, mz) in &[(1.0, 1.0), (1e8, 1e-8), (1e-8, 1e8), (1e4, 1e4)] {
                     let s = soc_interior(&mut g.rng, n, dist, ms);
@@ -747,8 +884,9 @@ fn generate(g: &mut Gen, thorough: bool) {
     }
     // PSD cone, n = 1..5 (scaling through LAPACK; validated per call)
     if blas_shim::AVAILABLE {
-        for _ in 0..reps {
+        for rep in 0..reps {
             for n in 1..=5usize {
+                if !thorough && rep > 0 && n > 3 { continue; }
                 for &(ms, mz, fl) in &[(1.0, 1.0, 0.3), (1e3, 1e-3, 0.3), (1.0, 1.0, 0.01), (1e-4, 1e2, 0.1)] {
                     let S = psd_matrix(&mut g.rng, n, fl, ms);
                     let Z = psd_matrix(&mut g.rng, n, fl, mz);
